@@ -3,7 +3,7 @@
    record of what the merges do (the same triples are in the harness corpus and run on the real code). *)
 From Coq Require Import List String Bool Arith.
 From Helm Require Import Common.Assoc Engine.Cluster Engine.Obj2 Engine.Update2.
-From Helm Require Import Engine.Merge3Proofs Engine.MergeJsonProofs Engine.Update2Proofs.
+From Helm Require Import Engine.Merge3Proofs Engine.MergeJsonProofs Engine.MergeJson3Proofs Engine.Update2Proofs.
 Import ListNotations.
 Local Open Scope string_scope.
 
@@ -95,6 +95,13 @@ Example json2_hypotheses_met :
   mget (["spec"; "limits"] ++ ["foreign"]) w_t = None /\ mget (["spec"; "limits"] ++ ["foreign"]) w_o = None /\
   mget (["spec"; "limits"] ++ ["foreign"]) w_l <> None.
 Proof. vm_compute. repeat split; discriminate. Qed.
+
+Example json3_hypotheses_met :
+  wf_tree w_o = true /\ wf_tree w_t = true /\ wf_tree w_l = true /\
+  mget ["spec"; "color"] w_t = Some (js "web") /\ nonmap (js "web") = true /\
+  mget ["spec"; "color"] w_l = Some (js "DRIFT") /\
+  mget ["spec"; "color"] (j3 w_o w_t w_l) = Some (js "web").
+Proof. vm_compute. repeat split; reflexivity. Qed.
 
 (* K8-C02.  A member path the target gives a value, the original gives the same value, the live object
    does not hold it: after the two-way patch the result still does not hold it.  (Replayed on the real
